@@ -60,7 +60,8 @@ type bindGen struct {
 }
 
 // struct types that Prepare rejects (or that are odd): used now and then so that every statement form meets them
-var badStructs = []string{"NoTags", "Unexported", "BadFlag", "BadEmpty", "BadQuote", "BadChar", "BadDigit", "DupTag", "DupEmbed", "Rec", "RecA", "RecRoot"}
+var badStructs = []string{"NoTags", "Unexported", "BadFlag", "BadEmpty", "BadQuote", "BadChar", "BadDigit", "DupTag", "DupEmbed", "Rec", "RecA", "RecRoot",
+	"TagLoneQuote", "TagLoneDQuote", "TagLoneQuoteFlag", "TagEmptyQuoted", "TagEmptyDQuoted", "TagQuoteInside", "TagSpace", "TagTrailingComma", "TagTwoFlags", "TagDash", "TagStar", "TagUnderscore", "TagMixedQuotes"}
 
 func (g *bindGen) structName() string {
 	if g.r.chance(1, 15) {
@@ -471,6 +472,17 @@ func (g *bindGen) bulkPair() bindCase {
 	return c
 }
 
+// lay varies the layout of a piece of pass-through text that ends in a blank: in one case out of five
+// the last blank becomes a newline, a tab, CRLF, or a comment (a `--` comment ends at its newline, so
+// what follows starts in column 1).
+func (g *bindGen) lay(s string) string {
+	i := strings.LastIndexByte(s, ' ')
+	if i < 0 || !g.r.chance(1, 5) {
+		return s
+	}
+	return s[:i] + g.r.pick([]string{"\n", "\t", "\r\n", " -- c\n", " /* c */ ", "\n-- $T.x 'q\n", " /* ' */"}) + s[i+1:]
+}
+
 func (g *bindGen) next1() bindCase {
 	r := g.r
 	if r.chance(1, 40) {
@@ -482,21 +494,21 @@ func (g *bindGen) next1() bindCase {
 	kind := r.intn(10)
 	switch {
 	case kind < 3: // select with outputs and inputs
-		b.WriteString("SELECT ")
+		b.WriteString(g.lay("SELECT "))
 		n := 1 + r.intn(2)
 		for i := 0; i < n; i++ {
 			if i > 0 {
-				b.WriteString(", ")
+				b.WriteString(g.lay(", "))
 			}
 			b.WriteString(g.outputExpr(p))
 		}
-		b.WriteString(" FROM t")
+		b.WriteString(g.lay(" FROM t"))
 		k := r.intn(3)
 		for i := 0; i < k; i++ {
 			if i == 0 {
-				b.WriteString(" WHERE x = ")
+				b.WriteString(g.lay(" WHERE x = "))
 			} else {
-				b.WriteString(" AND y IN (")
+				b.WriteString(g.lay(" AND y IN ("))
 			}
 			b.WriteString(g.inputExpr(p))
 			if i > 0 {
@@ -505,24 +517,24 @@ func (g *bindGen) next1() bindCase {
 		}
 	case kind < 7: // insert
 		hasInsert = true
-		b.WriteString("INSERT INTO t ")
+		b.WriteString(g.lay("INSERT INTO t "))
 		b.WriteString(g.insertExpr(p))
 		if r.chance(1, 5) {
-			b.WriteString(" RETURNING ")
+			b.WriteString(g.lay(" RETURNING "))
 			b.WriteString(g.outputExpr(p))
 		}
 	case kind < 9: // update / delete with inputs
-		b.WriteString("UPDATE t SET a = ")
+		b.WriteString(g.lay("UPDATE t SET a = "))
 		b.WriteString(g.inputExpr(p))
 		k := r.intn(3)
 		for i := 0; i < k; i++ {
-			b.WriteString(" , b = ")
+			b.WriteString(g.lay(" , b = "))
 			b.WriteString(g.inputExpr(p))
 		}
 	default: // mixture
 		n := 1 + r.intn(4)
 		for i := 0; i < n; i++ {
-			b.WriteString(" x ")
+			b.WriteString(g.lay(" x "))
 			switch r.intn(3) {
 			case 0:
 				b.WriteString(g.inputExpr(p))
@@ -588,6 +600,36 @@ func (g *bindGen) next1() bindCase {
 			case "IntSlice":
 				c.args = append(c.args, zoo2.IntSlice{5, 6})
 			}
+		}
+	}
+	// a bulk slice given both as []T and as []*T (with other values) in one call
+	if hasInsert && r.chance(1, 5) {
+		for _, a := range c.args {
+			if a == nil {
+				continue
+			}
+			v := reflect.ValueOf(a)
+			t := v.Type()
+			if t.Kind() != reflect.Slice || t.Name() != "" || v.Len() == 0 {
+				continue
+			}
+			switch {
+			case t.Elem().Kind() == reflect.Struct:
+				o := reflect.MakeSlice(reflect.SliceOf(reflect.PointerTo(t.Elem())), 0, v.Len())
+				for i := 0; i < v.Len(); i++ {
+					p := reflect.New(t.Elem())
+					g.f.fill(p.Elem(), 0)
+					o = reflect.Append(o, p)
+				}
+				c.args = append(c.args, o.Interface())
+			case t.Elem().Kind() == reflect.Pointer && t.Elem().Elem().Kind() == reflect.Struct:
+				o := reflect.MakeSlice(reflect.SliceOf(t.Elem().Elem()), v.Len(), v.Len())
+				for i := 0; i < v.Len(); i++ {
+					g.f.fill(o.Index(i), 0)
+				}
+				c.args = append(c.args, o.Interface())
+			}
+			break
 		}
 	}
 	for i := len(c.args) - 1; i > 0; i-- {
